@@ -8,7 +8,6 @@ use acb::app::run_acb_app_to_delta_models;
 use acb::fx::io::testlib::new_test_rate_loader;
 use acb::portfolio::io::tx_csv::TxCsvParseOptions;
 use acb::portfolio::{PortfolioSecurityStatus, TxActionSpecifics, TxDelta};
-use acb::util::decimal::GreaterEqualZeroDecimal;
 use acb::util::rw::{DescribedReader, WriteHandle};
 use rust_decimal::Decimal;
 use serde_json::{json, Value};
@@ -16,23 +15,9 @@ use serde_json::{json, Value};
 use crate::model::*;
 
 fn opening_status(case: &Case) -> Result<HashMap<String, PortfolioSecurityStatus>, String> {
-    let mut m = HashMap::new();
-    for (sec, (n, c)) in &case.opening {
-        let n = n.dec().ok_or("bad opening shares")?;
-        let c = c.dec().ok_or("bad opening acb")?;
-        let n = GreaterEqualZeroDecimal::try_from(n)?;
-        let c = GreaterEqualZeroDecimal::try_from(c)?;
-        m.insert(
-            sec.clone(),
-            PortfolioSecurityStatus {
-                security: sec.clone(),
-                share_balance: n,
-                all_affiliate_share_balance: n,
-                total_acb: Some(c),
-            },
-        );
-    }
-    Ok(m)
+    // through the parser of the -b / web UI strings (SYM:shares:acb), as the front ends do
+    let specs: Vec<String> = case.opening.iter().map(|(sec, (n, c))| format!("{}:{}:{}", sec, n.text(), c.text())).collect();
+    acb::app::input_parse::parse_initial_status(&specs)
 }
 
 fn act_name(d: &TxDelta) -> &'static str {
